@@ -195,6 +195,10 @@ def run(ck):
   ck.cov["xproc_resumes_not_bitwise_but_within_1e-5"] = int(nonbit)
   tph = _phase(ck, "R_cross_process", tph)
   # ---- V ----------------------------------------------------------------------------------------------
+  if not any(any(e["a"] == "crash" for e in t["events"]) and len(t["events"]) >= T for t in traces):
+    if ck.violations:
+      return                      # the runs failed and were reported: nothing left to validate
+    raise core.MachineryError("no complete crash schedule was executed")
   vs = ck.validate("Resume_Trace", "Resume_Trace", [{"events": t["events"]} for t in traces])
   for t, v in zip(traces, vs):
     if v["accepted"]:
